@@ -85,7 +85,7 @@ def run_sequences(name, n_seq, n_ops):
         for step in range(n_ops):
             cases += 1
             op = rnd.choice(['add', 'add', 'add_no_lock', 'adds', 'remove', 'remove_no_lock', 'removes', 'update',
-                             'update_no_lock', 'updates', 'clear', 'dup_add', 'remove_absent', 'dup_update'])
+                             'update_no_lock', 'updates', 'clear', 'dup_add', 'remove_absent', 'dup_update', 'readd'])
             before = snapshot(table)
             try:
                 if op in ('add', 'add_no_lock'):
@@ -96,6 +96,19 @@ def run_sequences(name, n_seq, n_ops):
                     os_ = [mk_obj(rnd, 40) for _ in range(rnd.randrange(3))]
                     pool.extend(os_)
                     table.add_objects(os_)
+                elif op == 'readd' and table._objects:
+                    # the very object that is already stored is offered again: nothing happens (no error, no change)
+                    o = rnd.choice(list(table._objects))
+                    how = rnd.choice(['add_object', 'add_object_no_lock', 'add_objects'])
+                    try:
+                        getattr(table, how)([o] if how == 'add_objects' else o)
+                    except Exception as exc:  # noqa: BLE001
+                        bad.append({'key': f'{name}:re-adding-a-stored-object-raises', 'detail': f'{name}: {how}(stored object) raised {type(exc).__name__}: {exc}'})
+                    if snapshot(table) != before:
+                        bad.append({'key': f'{name}:re-adding-a-stored-object-changes-table',
+                                    'detail': f'{name}: {how} of an object that is already stored changed the table (sequence {s}, step {step})'})
+                        break
+                    continue
                 elif op == 'dup_add' and table._objects:
                     src = rnd.choice(list(table._objects))
                     o = mk_obj(rnd, 6)
